@@ -80,22 +80,22 @@ Definition attach (n2i : list (name * nat)) (acc : option nodemap) (e : name * l
       end
   end.
 
-Definition from_dict_graph (d : tdict) : option gstate :=
-  let n0 : nodemap := fun i => if i =? 0 then Some (Some root_payload) else None in
-  match d_edges d with
-  | [] => Some (mkG n0 [] (d_n2i d) (d_i2n d) (d_data d) (d_last d))
-  | _ =>
-      let M := max_index (d_edges d) in
-      let n1 : nodemap := fun i => if i =? 0 then Some (Some root_payload) else if i <=? M then Some None else None in
-      match fold_left (attach (d_n2i d)) (d_data d) (Some n1) with
-      | None => None
-      | Some n2 =>
-          let keep := mapped (d_i2n d) in
-          let n3 : nodemap := fun i => if keep i then n2 i else None in                   (* remove_nodes_from(holes) *)
-          let es := filter (fun e => keep (fst e) && keep (snd e)) (d_edges d) in        (* ... takes their edges along *)
-          Some (mkG n3 es (d_n2i d) (d_i2n d) (d_data d) (d_last d))
-      end
+(* the `if len(tree_dict["graph"]) > 0` branch *)
+Definition rebuild (d : tdict) : option gstate :=
+  let M := max_index (d_edges d) in
+  let n1 : nodemap := fun i => if i =? 0 then Some (Some root_payload) else if i <=? M then Some None else None in
+  match fold_left (attach (d_n2i d)) (d_data d) (Some n1) with
+  | None => None
+  | Some n2 =>
+      let keep := mapped (d_i2n d) in
+      let n3 : nodemap := fun i => if keep i then n2 i else None in                   (* remove_nodes_from(holes) *)
+      let es := filter (fun e => keep (fst e) && keep (snd e)) (d_edges d) in        (* ... takes their edges along *)
+      Some (mkG n3 es (d_n2i d) (d_i2n d) (d_data d) (d_last d))
   end.
+Definition bare_root (d : tdict) : gstate :=
+  mkG (fun i => if i =? 0 then Some (Some root_payload) else None) [] (d_n2i d) (d_i2n d) (d_data d) (d_last d).
+Definition from_dict_graph (d : tdict) : option gstate :=
+  match d_edges d with [] => Some (bare_root d) | _ :: _ => rebuild d end.
 
 (* ---- abstraction: the labelled tree a consistent index-level state denotes ---------------------------- *)
 Fixpoint abs_n (fuel : nat) (g : gstate) (i : nat) : option lnode :=
@@ -141,3 +141,24 @@ Definition gwf (g : gstate) : Prop :=
   /\ (forall e, In e (g_edges g) -> mapped (g_i2n g) (fst e) = true /\ mapped (g_i2n g) (snd e) = true)
   /\ lookup_i 0 (g_i2n g) = Some NRoot.
 End Dict.
+
+(* executable version of gwf (sound: Proofs/DictFormProofs.v gwfb_sound) *)
+Definition opt_nat_eqb (a : option nat) (b : nat) : bool := match a with Some x => x =? b | None => false end.
+Definition opt_name_eqb (a : option name) (b : name) : bool := match a with Some x => name_eqb x b | None => false end.
+Fixpoint nodup_names (l : list name) : bool :=
+  match l with [] => true | x :: r => negb (existsb (name_eqb x) r) && nodup_names r end.
+Definition gwfb (g : gstate) : bool :=
+  opt_nat_eqb (lookup_n NRoot (g_n2i g)) 0
+  && nodup_names (map fst (g_data g))
+  && forallb (fun e => match fst e with
+                       | NClone l => match lookup_n (NClone l) (g_n2i g) with
+                                     | Some i => opt_name_eqb (lookup_i i (g_i2n g)) (NClone l)
+                                                 && existsb (Nat.eqb i) (map snd (g_edges g)) && negb (i =? 0)
+                                     | None => false end
+                       | _ => true end) (g_data g)
+  && forallb (fun e => match snd e with
+                       | NClone l => opt_nat_eqb (lookup_n (NClone l) (g_n2i g)) (fst e)
+                                     && existsb (name_eqb (NClone l)) (map fst (g_data g))
+                       | _ => true end) (g_i2n g)
+  && forallb (fun e => mapped (g_i2n g) (fst e) && mapped (g_i2n g) (snd e)) (g_edges g)
+  && opt_name_eqb (lookup_i 0 (g_i2n g)) NRoot.
